@@ -248,11 +248,13 @@ impl ParsedFormula {
 
         let formula = SymbolicBDD::parse_formula(&mut tokens.iter().peekable())?;
 
-        let n = vars.len();
+        // raw2free is indexed by variable id; with a custom ordering the ids of the formula's
+        // variables are not necessarily 0..vars.len()
+        let n = vars.iter().map(|v| v.id + 1).max().unwrap_or(0);
         let mut result = Self {
             vars,
             free_vars: Vec::new(),
-            raw2free: Vec::with_capacity(n),
+            raw2free: vec![None; n],
             bdd: formula,
             env,
             definitions: Default::default(),
@@ -260,7 +262,7 @@ impl ParsedFormula {
 
         let mut vi = 0;
         for v in &result.vars {
-            result.raw2free.push(if result.var_is_free(&result.bdd, v) {
+            result.raw2free[v.id] = if result.var_is_free(&result.bdd, v) {
                 result.free_vars.push(v.clone());
                 let v_result = vi;
                 vi += 1;
@@ -268,7 +270,7 @@ impl ParsedFormula {
                 Some(v_result)
             } else {
                 None
-            });
+            };
         }
 
         Ok(result)
